@@ -143,3 +143,231 @@ Definition lstep (s : lst) (o : lop) : lst :=
 Definition lrun (s : lst) (ops : list lop) : lst := fold_left lstep ops s.
 Definition linit (known : list Z) : lst := mkLS [] None 0 known [] [].
 Definition ls_delivered (s : lst) : list pkt := map fst (filter snd (ls_done s)).
+
+(* ====================================================================================== *)
+(* Deepening round: the same two pacers WITH Close, the racing select and the loop exit.   *)
+(* ====================================================================================== *)
+
+(* outcome of one Write call *)
+Inductive wres := WAccepted | WClosed | WOverflow.
+
+Definition wres_eqb (a b : wres) : bool :=
+  match a, b with WAccepted, WAccepted | WClosed, WClosed | WOverflow, WOverflow => true | _, _ => false end.
+
+(* writers (goroutines) between the first and the second atomic step of Write: (writer id, packet copy) *)
+Fixpoint pend_find (w : Z) (l : list (Z * pkt)) : option pkt :=
+  match l with
+  | [] => None
+  | (w', p) :: tl => if w' =? w then Some p else pend_find w tl
+  end.
+
+Fixpoint pend_remove (w : Z) (l : list (Z * pkt)) : list (Z * pkt) :=
+  match l with
+  | [] => []
+  | (w', p) :: tl => if w' =? w then tl else (w', p) :: pend_remove w tl
+  end.
+
+(* ---------------- pacing interceptor with Close (pkg/pacing/interceptor.go) ----------------
+   Write (BindLocalStream closure), atomic steps:
+     CWBegin w p    [pre = true, the repaired code]: `select { case <-i.closed: return errPacerClosed; default: }`,
+                    then header.Clone / payload copy (p is the copy).  [pre = false, the code before the
+                    repair]: only the copy.
+     CWSelect w pick `select { case i.queue <- pkt: ; case <-i.closed: errPacerClosed ; default: errPacerOverflow }`
+                    Go semantics: among the READY communication cases one is chosen at random (pick = true: the
+                    send); default only if none is ready.  send ready <=> len(chan) < cap; closed ready <=> closed.
+   loop():  CRecv / CTick now (the two data cases of the select), CExit (case <-i.closed: return); nothing of the
+            loop is enabled after CExit.  A closed loop may still take CRecv/CTick before CExit (random select).
+   Close(): CCloseBegin = closeOnce.Do(close(i.closed)) (idempotent), CCloseReturn = wg.Wait() returned
+            (enabled only once the loop goroutine has exited). *)
+Record pcs := mkPC {
+  pc_chan : list pkt;
+  pc_local : list pkt;
+  pc_tb : tb;
+  pc_closed : bool;                      (* close(i.closed) executed *)
+  pc_exited : bool;                      (* loop() returned *)
+  pc_returned : bool;                    (* some Close() call returned *)
+  pc_pending : list (Z * pkt);           (* writers between CWBegin and CWSelect *)
+  pc_begun : list (Z * pkt);             (* history: Write calls in call order *)
+  pc_results : list (Z * pkt * wres);    (* history: completed Write calls in completion order *)
+  pc_accepted : list pkt;                (* history: accepted packets in acceptance (= channel) order *)
+  pc_delivered : list pkt;
+  pc_bits : Z
+}.
+
+Inductive pcop :=
+| CWBegin (w : Z) (p : pkt)
+| CWSelect (w : Z) (pick : bool)
+| CRecv
+| CTick (now : Z)
+| CSetRate (t rate burst : Z)
+| CCloseBegin
+| CExit
+| CCloseReturn.
+
+Definition pcstep (pre : bool) (s : pcs) (o : pcop) : pcs :=
+  match o with
+  | CWBegin w p =>
+      match pend_find w (pc_pending s) with
+      | Some _ => s                                           (* a goroutine is inside one Write at a time *)
+      | None =>
+          if pre && pc_closed s
+          then mkPC (pc_chan s) (pc_local s) (pc_tb s) (pc_closed s) (pc_exited s) (pc_returned s) (pc_pending s)
+                    (pc_begun s ++ [(w, p)]) (pc_results s ++ [(w, p, WClosed)]) (pc_accepted s) (pc_delivered s) (pc_bits s)
+          else mkPC (pc_chan s) (pc_local s) (pc_tb s) (pc_closed s) (pc_exited s) (pc_returned s) (pc_pending s ++ [(w, p)])
+                    (pc_begun s ++ [(w, p)]) (pc_results s) (pc_accepted s) (pc_delivered s) (pc_bits s)
+      end
+  | CWSelect w pick =>
+      match pend_find w (pc_pending s) with
+      | None => s
+      | Some p =>
+          let send_ready := Z.of_nat (length (pc_chan s)) <? QUEUE_CAP in
+          let closed_ready := pc_closed s in
+          if send_ready && (negb closed_ready || pick)
+          then mkPC (pc_chan s ++ [p]) (pc_local s) (pc_tb s) (pc_closed s) (pc_exited s) (pc_returned s) (pend_remove w (pc_pending s))
+                    (pc_begun s) (pc_results s ++ [(w, p, WAccepted)]) (pc_accepted s ++ [p]) (pc_delivered s) (pc_bits s)
+          else mkPC (pc_chan s) (pc_local s) (pc_tb s) (pc_closed s) (pc_exited s) (pc_returned s) (pend_remove w (pc_pending s))
+                    (pc_begun s) (pc_results s ++ [(w, p, if closed_ready then WClosed else WOverflow)]) (pc_accepted s) (pc_delivered s) (pc_bits s)
+      end
+  | CRecv =>
+      if pc_exited s then s else
+      match pc_chan s with
+      | [] => s
+      | p :: tl => mkPC tl (pc_local s ++ [p]) (pc_tb s) (pc_closed s) (pc_exited s) (pc_returned s) (pc_pending s)
+                        (pc_begun s) (pc_results s) (pc_accepted s) (pc_delivered s) (pc_bits s)
+      end
+  | CTick now =>
+      if pc_exited s then s else
+      let '(q, b, del, bits) := release (length (pc_local s)) now (pc_local s) (pc_tb s) (pc_delivered s) (pc_bits s) in
+      mkPC (pc_chan s) q b (pc_closed s) (pc_exited s) (pc_returned s) (pc_pending s)
+           (pc_begun s) (pc_results s) (pc_accepted s) del bits
+  | CSetRate t r bu =>
+      mkPC (pc_chan s) (pc_local s) (tb_set (pc_tb s) t r bu) (pc_closed s) (pc_exited s) (pc_returned s) (pc_pending s)
+           (pc_begun s) (pc_results s) (pc_accepted s) (pc_delivered s) (pc_bits s)
+  | CCloseBegin =>
+      mkPC (pc_chan s) (pc_local s) (pc_tb s) true (pc_exited s) (pc_returned s) (pc_pending s)
+           (pc_begun s) (pc_results s) (pc_accepted s) (pc_delivered s) (pc_bits s)
+  | CExit =>
+      if pc_closed s
+      then mkPC (pc_chan s) (pc_local s) (pc_tb s) (pc_closed s) true (pc_returned s) (pc_pending s)
+                (pc_begun s) (pc_results s) (pc_accepted s) (pc_delivered s) (pc_bits s)
+      else s
+  | CCloseReturn =>
+      if pc_closed s && pc_exited s
+      then mkPC (pc_chan s) (pc_local s) (pc_tb s) (pc_closed s) (pc_exited s) true (pc_pending s)
+                (pc_begun s) (pc_results s) (pc_accepted s) (pc_delivered s) (pc_bits s)
+      else s
+  end.
+
+Definition pcrun (pre : bool) (s : pcs) (ops : list pcop) : pcs := fold_left (pcstep pre) ops s.
+
+Definition pcinit (rate burst t0 : Z) : pcs :=
+  mkPC [] [] (mkTB rate burst (burst * NS) t0) false false false [] [] [] [] [] 0.
+
+(* ---------------- leaky bucket with Close (pkg/gcc/leaky_bucket_pacer.go) ----------------
+   Write:  KWBegin w p = `select { case <-p.done: return errLeakyBucketPacerClosed; default: }` + copy;
+           KWPush w    = qLock.Lock(); queue.PushBack; qLock.Unlock()   (accepted).
+   Run():  KTickStart b (case now := <-ticker.C; budget; qLock.Lock()), KPop (Remove(Front); qLock.Unlock()),
+           KSend n (writer lookup, Write OUTSIDE the lock, budget -= n, qLock.Lock()), KTickEnd (loop condition
+           false: qLock.Unlock(), back at the select), KExit (case <-p.done: return) - only at the select, i.e. not
+           inside a tick: the inner for-loop does not look at p.done.
+   Close(): KCloseBegin = closeOnce.Do(close(p.done)); KCloseReturn = wg.Wait() returned. *)
+Record lcs := mkLC {
+  lc_queue : list pkt;
+  lc_inflight : option pkt;
+  lc_budget : Z;
+  lc_intick : bool;                      (* Run is inside the body of `case now := <-ticker.C` *)
+  lc_known : list Z;
+  lc_closed : bool;
+  lc_exited : bool;
+  lc_returned : bool;
+  lc_pending : list (Z * pkt);
+  lc_begun : list (Z * pkt);
+  lc_results : list (Z * pkt * wres);
+  lc_accepted : list pkt;
+  lc_done : list (pkt * bool)
+}.
+
+Inductive lcop :=
+| KWBegin (w : Z) (p : pkt)
+| KWPush (w : Z)
+| KAddStream (ssrc : Z)
+| KTickStart (budget : Z)
+| KPop
+| KSend (n : Z)
+| KTickEnd
+| KCloseBegin
+| KExit
+| KCloseReturn.
+
+Definition lcstep (s : lcs) (o : lcop) : lcs :=
+  match o with
+  | KWBegin w p =>
+      match pend_find w (lc_pending s) with
+      | Some _ => s
+      | None =>
+          if lc_closed s
+          then mkLC (lc_queue s) (lc_inflight s) (lc_budget s) (lc_intick s) (lc_known s) (lc_closed s) (lc_exited s) (lc_returned s)
+                    (lc_pending s) (lc_begun s ++ [(w, p)]) (lc_results s ++ [(w, p, WClosed)]) (lc_accepted s) (lc_done s)
+          else mkLC (lc_queue s) (lc_inflight s) (lc_budget s) (lc_intick s) (lc_known s) (lc_closed s) (lc_exited s) (lc_returned s)
+                    (lc_pending s ++ [(w, p)]) (lc_begun s ++ [(w, p)]) (lc_results s) (lc_accepted s) (lc_done s)
+      end
+  | KWPush w =>
+      match pend_find w (lc_pending s) with
+      | None => s
+      | Some p =>
+          mkLC (lc_queue s ++ [p]) (lc_inflight s) (lc_budget s) (lc_intick s) (lc_known s) (lc_closed s) (lc_exited s) (lc_returned s)
+               (pend_remove w (lc_pending s)) (lc_begun s) (lc_results s ++ [(w, p, WAccepted)]) (lc_accepted s ++ [p]) (lc_done s)
+      end
+  | KAddStream x =>
+      mkLC (lc_queue s) (lc_inflight s) (lc_budget s) (lc_intick s) (x :: lc_known s) (lc_closed s) (lc_exited s) (lc_returned s)
+           (lc_pending s) (lc_begun s) (lc_results s) (lc_accepted s) (lc_done s)
+  | KTickStart b =>
+      if lc_exited s || lc_intick s then s
+      else mkLC (lc_queue s) (lc_inflight s) b true (lc_known s) (lc_closed s) (lc_exited s) (lc_returned s)
+                (lc_pending s) (lc_begun s) (lc_results s) (lc_accepted s) (lc_done s)
+  | KPop =>
+      match lc_intick s, lc_inflight s, lc_queue s with
+      | true, None, p :: tl =>
+          if 0 <? lc_budget s
+          then mkLC tl (Some p) (lc_budget s) true (lc_known s) (lc_closed s) (lc_exited s) (lc_returned s)
+                    (lc_pending s) (lc_begun s) (lc_results s) (lc_accepted s) (lc_done s)
+          else s
+      | _, _, _ => s
+      end
+  | KSend n =>
+      match lc_inflight s with
+      | Some p =>
+          if knownb (lc_known s) (p_stream p)
+          then mkLC (lc_queue s) None (lc_budget s - n) (lc_intick s) (lc_known s) (lc_closed s) (lc_exited s) (lc_returned s)
+                    (lc_pending s) (lc_begun s) (lc_results s) (lc_accepted s) (lc_done s ++ [(p, true)])
+          else mkLC (lc_queue s) None (lc_budget s) (lc_intick s) (lc_known s) (lc_closed s) (lc_exited s) (lc_returned s)
+                    (lc_pending s) (lc_begun s) (lc_results s) (lc_accepted s) (lc_done s ++ [(p, false)])
+      | None => s
+      end
+  | KTickEnd =>
+      match lc_intick s, lc_inflight s with
+      | true, None =>
+          if (match lc_queue s with [] => true | _ => false end) || (lc_budget s <=? 0)
+          then mkLC (lc_queue s) None (lc_budget s) false (lc_known s) (lc_closed s) (lc_exited s) (lc_returned s)
+                    (lc_pending s) (lc_begun s) (lc_results s) (lc_accepted s) (lc_done s)
+          else s
+      | _, _ => s
+      end
+  | KCloseBegin =>
+      mkLC (lc_queue s) (lc_inflight s) (lc_budget s) (lc_intick s) (lc_known s) true (lc_exited s) (lc_returned s)
+           (lc_pending s) (lc_begun s) (lc_results s) (lc_accepted s) (lc_done s)
+  | KExit =>
+      if lc_closed s && negb (lc_intick s)
+      then mkLC (lc_queue s) (lc_inflight s) (lc_budget s) (lc_intick s) (lc_known s) (lc_closed s) true (lc_returned s)
+                (lc_pending s) (lc_begun s) (lc_results s) (lc_accepted s) (lc_done s)
+      else s
+  | KCloseReturn =>
+      if lc_closed s && lc_exited s
+      then mkLC (lc_queue s) (lc_inflight s) (lc_budget s) (lc_intick s) (lc_known s) (lc_closed s) (lc_exited s) true
+                (lc_pending s) (lc_begun s) (lc_results s) (lc_accepted s) (lc_done s)
+      else s
+  end.
+
+Definition lcrun (s : lcs) (ops : list lcop) : lcs := fold_left lcstep ops s.
+Definition lcinit (known : list Z) : lcs := mkLC [] None 0 false known false false false [] [] [] [] [].
+Definition lc_delivered (s : lcs) : list pkt := map fst (filter snd (lc_done s)).
